@@ -93,7 +93,7 @@ pub fn check_one(cache: &RefCache, mg: &MoveGenerator, rep: &Report, b: &Board, 
     crate::timer::verif::set_node_clock(Some(1));
     let _job = crate::watch::enter(
         format!("C05 fen={} depth={} no-answer", fen, k),
-        format!("fresh engine, search of {:?} to depth {}: no answer after {} s of wall time", fen, k, crate::watch::LIMIT_S),
+        format!("fresh engine, search of {:?} to depth {}: no answer after {} s of CPU time", fen, k, crate::watch::LIMIT_S),
         args.clone(),
     );
     let r = guard(|| {
